@@ -75,6 +75,7 @@ func main() {
 
 	bench := flag.String("selfbench", "", "development aid: expand the initial state of the named base in-process; -prof writes a CPU profile")
 	prof := flag.String("prof", "", "")
+	benchHist := flag.String("hist", "", "")
 
 	var wflag string
 
@@ -84,7 +85,7 @@ func main() {
 	bfs.MaybeWorker(factory(*tier))
 
 	if *bench != "" {
-		selfBench(*bench, *tier, *prof)
+		selfBench(*bench, *tier, *prof, *benchHist)
 
 		return
 	}
@@ -200,12 +201,12 @@ func main() {
 	sort.Slice(all, func(i, j int) bool { return all[i].System < all[j].System })
 
 	var (
-		states, trans, spelling int
-		classes                 = map[string]bool{}
-		exh                     = true
-		depthDone               = d
-		samples                 []any
-		harnessErr              string
+		states, trans, spelling, violTrans int
+		classes                            = map[string]bool{}
+		exh                                = true
+		depthDone                          = d
+		samples                            []any
+		harnessErr                         string
 	)
 
 	for i := range all {
@@ -219,6 +220,11 @@ func main() {
 		trans += st.Transitions
 
 		for k, c := range st.Outcomes {
+			if strings.HasSuffix(k, "|V") {
+				violTrans += c
+				k = strings.TrimSuffix(k, "|V")
+			}
+
 			if strings.HasSuffix(k, "|spelling-only") {
 				spelling += c
 				k = strings.TrimSuffix(k, "|spelling-only")
@@ -296,13 +302,15 @@ func main() {
 		Coverage: map[string]any{
 			"states": states, "transitions": trans, "traces_validated_against_impl": trans,
 			"evaluations": trans, "distinct_nontrivial": len(classes),
-			"rule":                   "every history of length <= bound over the level alphabets executed on a fresh real BasePathFS(base,/top/b) and, in lock-step, on a standalone reference of the same type; distinct_nontrivial = distinct (call, reference outcome kinds, lexical class of the path operand(s)) observed on executed transitions",
-			"samples":                samples,
-			"exhaustive":             exh,
-			"bound":                  bound,
-			"systems":                all,
-			"known_findings_matched": append([]string{}, rep.KnownMatched()...),
-			"violation_instances":    rep.Total,
+			"rule":                    "every history of length <= bound over the level alphabets executed on a fresh real BasePathFS(base,/top/b) and, in lock-step, on a standalone reference of the same type; distinct_nontrivial = distinct (call, reference outcome kinds, lexical class of the path operand(s)) observed on executed transitions",
+			"samples":                 samples,
+			"exhaustive":              exh,
+			"bound":                   bound,
+			"systems":                 all,
+			"known_findings_matched":  append([]string{}, rep.KnownMatched()...),
+			"violation_instances":     rep.Total,
+			"violation_instance_unit": "(expanded state, signature) pairs",
+			"violating_transitions":   violTrans,
 			"informational": map[string]any{
 				"totals":                 noteTotals,
 				"classes":                noteList,
@@ -312,7 +320,7 @@ func main() {
 		Assumptions: []string{
 			"state identity = injected node-graph dumps (VerifDump) of base and reference + both cwds; mtimes are compared as classes (setup instant / Chtimes instant / other) but are not part of the state key; a step that only changed an mtime class rebuilds the system",
 			"states in which the two sides diverged (tree, cwd, outside B changed, panic or decided deadlock) are reported and not expanded",
-			"returned and error-embedded path strings are compared modulo Clean (BasePathFS cleans error paths when translating them back; a different spelling of the same virtual path is counted as spelling_only_path_eqs, not as a violation)",
+			"returned and error-embedded path strings (Getwd, Abs, Glob, WalkDir, File.Name, Readlink, EvalSymlinks, PathError.Path, LinkError.Old/New) are compared after normalising both sides to the absolute cleaned virtual form (Clean(p) if absolute, else Clean(Join(virtual cwd before the call, p))); a different spelling of the same virtual location is counted as spelling_only_path_eqs, not as a violation; a different location is kind value/error-path, or leak when the wrapper's path carries the base prefix /top/b or /top and the reference's does not",
 			"BasePathFS does not advertise FeatSymlink: for Symlink/Readlink/EvalSymlinks over a MemFS base the reference answer is that of a file system without symbolic links (EPERM, arguments as given, no effect)",
 			"where the reference itself panics or deadlocks on a call (kind note:ref-defect) or cannot address its root (OrefaFS, kind note:ref-root-unaddressable) nothing is demanded of the outcome; the outside-B snapshot and the leak test still apply",
 			"file handles are exercised inside compound operations (Open/OpenFile, methods, Close): no handle survives a step",
@@ -328,8 +336,8 @@ func main() {
 		}
 	}
 
-	fmt.Printf("C10 summary: tier=%s states=%d transitions=%d distinct_classes=%d bound=%d completed=%d exhaustive=%v violation_instances=%d new_signatures=%d wall=%.1fs\n",
-		*tier, states, trans, len(classes), d, depthDone, exh, rep.Total, rep.NewCount(), ev.Elapsed())
+	fmt.Printf("C10 summary: tier=%s states=%d transitions=%d distinct_classes=%d bound=%d completed=%d exhaustive=%v violating_transitions=%d violation_instances(state,signature)=%d new_signatures=%d wall=%.1fs\n",
+		*tier, states, trans, len(classes), d, depthDone, exh, violTrans, rep.Total, rep.NewCount(), ev.Elapsed())
 
 	os.Exit(code)
 }
